@@ -85,6 +85,21 @@ fn xma_check(a: SocketAddr, t: u128, deep: bool, wide: u128) -> Option<(&'static
         }
         Err(e) => return Some(("wire-trip", format!("{a}"), format!("{e:?}"))),
     }
+    // through a whole message: the attribute last (what a plain Binding response looks like) and followed
+    // by SOFTWARE; the message parses and the typed lookup returns the address
+    for last in [true, false] {
+        let id = (t | wide).into();
+        let mut b = stun_types::message::Message::builder(stun_types::message::MessageType::from_class_method(stun_types::message::MessageClass::Success, 1), id);
+        let sw = Software::new("s").unwrap();
+        if b.add_attribute(&x).is_err() || (!last && b.add_attribute(&sw).is_err()) {
+            return Some(("message-trip", "attribute accepted by the builder".into(), "refused".into()));
+        }
+        let bytes = b.build();
+        match stun_types::message::Message::from_bytes(&bytes).map_err(|e| format!("{e:?}")).and_then(|m| m.attribute::<XorMappedAddress>().map(|y| y.addr(id)).map_err(|e| format!("{e:?}"))) {
+            Ok(back) if same_addr(back, a) => {}
+            other => return Some(("message-trip", format!("{a}"), format!("{other:?} (attribute {} in a success response)", if last { "last" } else { "followed by SOFTWARE" }))),
+        }
+    }
     // decode of the reference encoding
     let r = RawAttribute::new(AttributeType::new(0x0020), &want_wire);
     match XorMappedAddress::from_raw(&r) {
@@ -373,6 +388,32 @@ pub fn run(ctx: &Ctx) -> Report {
             }
         }
     }
+    // addresses (and ports) whose *obfuscated* form reads as the header of a sealing attribute - 80 28 00 04
+    // (FINGERPRINT), 00 08 00 14 (MESSAGE-INTEGRITY), 00 1c 00 20 / 00 1c 00 10 (MESSAGE-INTEGRITY-SHA256) -
+    // at every 4-aligned offset of the value, under every id of the set: in a message that ends with this
+    // attribute those bytes lie where a trailing sealing attribute would
+    for t in tids {
+        let mut k = [0u8; 16];
+        k[0..4].copy_from_slice(&[0x21, 0x12, 0xA4, 0x42]);
+        k[4..16].copy_from_slice(&(t & MASK96).to_be_bytes()[4..16]);
+        for hdr in [[0x80u8, 0x28, 0x00, 0x04], [0x00, 0x08, 0x00, 0x14], [0x00, 0x1C, 0x00, 0x20], [0x00, 0x1C, 0x00, 0x10], [0x80, 0x28, 0x00, 0x00]] {
+            for off in [0usize, 4, 8, 12] {
+                for bg in [[0u8; 16], [0x5A; 16]] {
+                    let mut o = bg;
+                    for i in 0..4 {
+                        o[off + i] = hdr[i] ^ k[off + i];
+                    }
+                    for port in [3478u16, 0x8028 ^ 0x2112, 0x0008 ^ 0x2112] {
+                        cases.push(mk_case(SocketAddr::new(IpAddr::V6(Ipv6Addr::from(o)), port), t));
+                    }
+                }
+            }
+            let v4 = [hdr[0] ^ 0x21, hdr[1] ^ 0x12, hdr[2] ^ 0xA4, hdr[3] ^ 0x42];
+            for port in [3478u16, 0x8028 ^ 0x2112, 0x0004 ^ 0x2112] {
+                cases.push(mk_case(SocketAddr::new(IpAddr::V4(Ipv4Addr::from(v4)), port), t));
+            }
+        }
+    }
     // every other 16-bit attribute type carrying an address-shaped value beside the XOR-MAPPED-ADDRESS
     for x in 0..=0xFFFFi64 {
         if ![0x0020, 0x0008, 0x001C, 0x8028].contains(&x) {
@@ -392,7 +433,7 @@ pub fn run(ctx: &Ctx) -> Report {
         .reduce(Acc::default, |a, b| a.merge(b));
     acc.nontrivial = n_cases;
     let mut bounds = json!({"ports": 65536, "lane_walk_backgrounds": 5, "cases": n_cases});
-    let mut rule = "all 65536 ports x 4 addresses x 3 tids; every byte lane of IPv4/IPv6 address and of the transaction id takes all 256 values against 5 backgrounds (zeros, ones, equal to the XOR key, complement, seeded); boundary tids; 17 special-purpose addresses (unspecified, loopback, IPv4-mapped / -compatible, NAT64, link-local, multicast, 6to4, ...) x 5 ports x 4 tids, and the addresses whose obfuscated (XOR-ed) form is one of those; transaction ids built from integers wider than 96 bits and 4000 ids from TransactionId::generate(); IPv6 socket addresses with scope ids and flow labels (the IP address, port and wire value must not depend on them); IPv4: all 6 lane pairs x all 65536 value pairs; IPv6: adjacent lanes and lanes 8 apart x 256 x (every 5th value + boundary set; all 256 in thorough); IPv6: all 96 single-bit-different tids; for every other 16-bit attribute type x (the sealing types apart): a message carrying an address-shaped attribute of type x before / after / instead of its XOR-MAPPED-ADDRESS, read with attribute::<XorMappedAddress>(); every judged operation is preceded on the same thread by operations under five related transaction ids".to_string();
+    let mut rule = "all 65536 ports x 4 addresses x 3 tids; every byte lane of IPv4/IPv6 address and of the transaction id takes all 256 values against 5 backgrounds (zeros, ones, equal to the XOR key, complement, seeded); boundary tids; 17 special-purpose addresses (unspecified, loopback, IPv4-mapped / -compatible, NAT64, link-local, multicast, 6to4, ...) x 5 ports x 4 tids, and the addresses whose obfuscated (XOR-ed) form is one of those; transaction ids built from integers wider than 96 bits and 4000 ids from TransactionId::generate(); IPv6 socket addresses with scope ids and flow labels (the IP address, port and wire value must not depend on them); IPv4: all 6 lane pairs x all 65536 value pairs; IPv6: adjacent lanes and lanes 8 apart x 256 x (every 5th value + boundary set; all 256 in thorough); IPv6: all 96 single-bit-different tids; every case also through a whole message (the attribute last / followed by SOFTWARE); addresses whose obfuscated form reads as the header of a sealing attribute at every 4-aligned offset; for every other 16-bit attribute type x (the sealing types apart): a message carrying an address-shaped attribute of type x before / after / instead of its XOR-MAPPED-ADDRESS, read with attribute::<XorMappedAddress>(); every judged operation is preceded on the same thread by operations under five related transaction ids".to_string();
     if ctx.tier == Tier::Thorough {
         // all 2^32 IPv4 addresses (fast path: address round trip + wire encoding)
         let fails = AtomicU64::new(0);
